@@ -268,7 +268,7 @@ func TestC03(t *testing.T) {
 			st.Class(res.class)
 		}
 		if res.class != "" && res.class != "lexer-error" {
-			st.NonTrivial(string(c.Src), nil)
+			st.NonTrivial(string(c.Src), c)
 		}
 	}
 	hangExit := func(c c03Case, f *vstat.Failure) {
